@@ -1237,6 +1237,9 @@ impl<'de> de::Deserializer<'de> for &mut Deserializer<'de> {
         match self.expect_type.as_ref() {
             TypeInner::Principal => self.deserialize_principal(visitor),
             TypeInner::Vec(t) if **t == TypeInner::Nat8 => {
+                // Borrowed bytes are handed out without looking at the elements: the wire side
+                // has to be a vector of bytes too.
+                check!(self.wire_type.is_blob(&self.table), "vec nat8");
                 let len = self.read_len()?;
                 self.add_cost(len.saturating_add(1))?;
                 let slice = self.borrow_bytes(len)?;
